@@ -793,7 +793,7 @@ func GenWorld(r *RNG, p Profile, pt *ParamTables) *World {
 			// with automatic harvest the model postpones every tillage that falls due while a crop with an open
 			// harvest date is current (even before its sowing) until after the harvest: no tillage events then
 			if !w.inGrowingAuto(d) && !(c.AutoHarvest && len(w.Rot) > 1) {
-				w.Till = append(w.Till, TillEvent{Day: d, Depth: r.PickI([]int{5, 10, 20, 30, 40}), Type: r.PickI([]int{1, 1, 2})})
+				w.Till = append(w.Till, TillEvent{Day: d, Depth: r.PickI([]int{5, 10, 12, 15, 20, 25, 28, 30, 40}), Type: r.PickI([]int{1, 1, 2})})
 			}
 			d += Day(r.Range(1, 300))
 		}
